@@ -424,7 +424,7 @@ def run_lock(rep, scens, family, probe_pct=25, max_steps=600, salt=0, judge=None
             # the property's monitor on the observed (and on the model's) history
             bad_h, known_h, bad_m = [], [], []
             if monitor and not slow:
-                bad_h, known_h = run_monitor(monitor, h_all, sc)
+                bad_h, known_h = run_monitor(monitor, h_all, sc, model_lines=m_all)
                 bad_m, _ = run_monitor(monitor, m_all, sc)
                 for kf in known_h:
                     rep.known_hits[kf.split(" (")[0]] = rep.known_hits.get(kf.split(" (")[0], 0) + 1
@@ -437,7 +437,11 @@ def run_lock(rep, scens, family, probe_pct=25, max_steps=600, salt=0, judge=None
                      " (the model produces the same history)" if bad_m and m == h else ""),
                     "family: %s\nmode: lock\nclauses: %s\n--- scenario\n%s\nschedule %s\n--- model\n%s\n--- impl\n%s\n" %
                     (family, bad_h[:5], sc, sched_txt, "\n".join(m_all), "\n".join(h_all))))
-            elif m != h and rep.prop == "C13" and any(" STUCK" in ln for ln in h):
+            elif m != h and rep.prop == "C13" and any(" STUCK" in ln for ln in h) and \
+                    " STUCK" in (h[next((i for i, (a, b) in enumerate(zip(m, h)) if a != b), 0)]
+                                 if len(h) > next((i for i, (a, b) in enumerate(zip(m, h)) if a != b), 0) else ""):
+                # (only when the run had followed the model up to there: after an earlier
+                # difference a granted thread may wait for a reason the model knows nothing about)
                 mism += 1
                 stuck_ln = next(ln for ln in h if " STUCK" in ln)
                 rejected.append((
@@ -471,10 +475,10 @@ def run_lock(rep, scens, family, probe_pct=25, max_steps=600, salt=0, judge=None
     return mism
 
 
-def run_monitor(monitor, lines, sc):
+def run_monitor(monitor, lines, sc, model_lines=None):
     import monitors
     try:
-        r = monitor(monitors.Hist(lines, sc))
+        r = monitor(monitors.Hist(lines, sc, model_lines))
     except Exception as e:   # a monitor crash must never look like a violation
         return [], ["monitor-error %r" % (e,)]
     if isinstance(r, tuple):
@@ -604,6 +608,7 @@ class Gen:
             if stopper < 0 or stopper in self.drains:
                 progs.append(["drop" if k.get("only_drop") else r.choice(["stop", "drop"])])
         # scripted answers / verdicts / selector values for the actions
+        eff_ids = {}
         for a in actions:
             for j in range(nred):
                 x = r.random()
@@ -623,13 +628,20 @@ class Gen:
                         if r.random() < 0.15:
                             body.append("panic")
                         eff = " e %d %s %s" % (self.next_eff, kind, ",".join(body) or "-")
+                    eff_ids.setdefault(a, []).append(self.next_eff)
                     self.next_eff += 1
                 if x < k["keep"] or eff:
                     lines.append("r %d %d %s%s" % (j, a, "K" if x < k["keep"] else "D", eff))
             for i in range(nmw):
                 for h in "red":
+                    # before_effect hooks may also remove effects of the action (knob rm)
+                    rm = ""
+                    if h == "e" and eff_ids.get(a) and r.random() < k.get("rm", 0.0):
+                        rm = " rm " + ",".join(str(x) for x in r.sample(eff_ids[a], r.randint(1, len(eff_ids[a]))))
                     if r.random() < k["verdict"]:
-                        lines.append("v %d %s %d %s" % (i, h, a, r.choice("DBE")))
+                        lines.append("v %d %s %d %s%s" % (i, h, a, r.choice("DBE"), rm))
+                    elif rm:
+                        lines.append("v %d %s %d C%s" % (i, h, a, rm))
             for s in range(1, self.next_sid):
                 lines.append("sel %d %d %d" % (s, a, r.randint(0, k.get("sel_values", 2))))
         for t, ops in enumerate(progs):
@@ -660,6 +672,22 @@ def resub_scenario(r):
     for i in range(r.randint(2, 4)):
         t1 += ["gs"] * r.randint(0, 2) + ["d.%s.%d" % (r.choice("ID"), 101 + i)]
     t1 += ["gs", r.choice(["stop", "drop"])]
+    lines += ["t 0 " + " ".join(t0), "t 1 " + " ".join(t1)]
+    return "\n".join(lines)
+
+
+def unsub_again_scenario(r):
+    """register A, unsubscribe A, register B, unsubscribe A *again* (must do nothing), then actions:
+    B stays registered until the stop"""
+    lines = ["cap 16", "pol block", "reducer 0 D", "init reducers 0", "init mws -"]
+    if r.random() < 0.5:
+        lines.append("sub 1 direct")
+    kind = r.choice(["as", "as", "sc"])
+    reg = (lambda s: "as:%d" % s) if kind == "as" else (lambda s: "sc:%d:2:block" % s)
+    t0 = [reg(5), "un:5", reg(6)] + ["gs"] * r.randint(0, 1) + ["un:5"]
+    t0 += ["d.I.%d" % (1 + i) for i in range(r.randint(1, 3))]
+    t1 = ["gs"] * r.randint(0, 2) + ["d.%s.%d" % (r.choice("ID"), 101 + i) for i in range(r.randint(1, 2))]
+    t1 += ["gs"] * r.randint(3, 6) + [r.choice(["stop", "drop"])]
     lines += ["t 0 " + " ".join(t0), "t 1 " + " ".join(t1)]
     return "\n".join(lines)
 
@@ -702,7 +730,7 @@ FAMILIES = {
                             mws=(0, 1)), 25),
     "channeled": (dict(policies=["block"], directs=(1, 1), chans=(1, 2), chan_pols=ALLPOL, keep=0.15,
                        ops={"d": 12, "sc": 2, "un": 3, "gs": 1}, max_ops=6), 30),
-    "effects": (dict(policies=["block", "oldest"], effects=0.35, reducers=(1, 3),
+    "effects": (dict(policies=["block", "oldest"], effects=0.35, reducers=(1, 3), rm=0.3,
                      ops={"d": 10, "th": 2, "tk": 2, "gs": 1}, max_ops=4, mws=(0, 1)), 25),
     "registration": (dict(policies=["block"], ops={"d": 10, "ar": 2, "am": 2, "as": 2}, max_ops=5,
                           mws=(0, 2), directs=(0, 1), verdict=0.2), 20),
@@ -712,6 +740,7 @@ FAMILIES = {
     # new iterator / subscriber)
     "resub": (dict(custom=resub_scenario), 10),
     "slow_iter": (dict(custom=slow_iter_scenario), 20),
+    "unsub_again": (dict(custom=unsub_again_scenario), 10),
     "shutdown_unsub": (dict(policies=["block"], directs=(2, 3), chans=(0, 1), chan_pols=["block"], reducers=(1, 1),
                             keep=0.0, ops={"d": 3, "un": 8}, max_ops=3, mws=(0, 0), max_threads=3, stop=1.0), 60),
     "subs_order": (dict(policies=["block"], directs=(3, 4), reducers=(1, 1), keep=0.0,
@@ -740,7 +769,7 @@ FAMILIES = {
                              ops={"d": 10, "gs": 1}, max_ops=5, max_threads=2), 0),
     "cb_unsub_chan": (dict(policies=["block"], caps=[4, 16], directs=(0, 1), chans=(2, 2), chan_pols=["block"],
                            reducers=(1, 1), mws=(0, 0), keep=0.0, ops={"d": 10, "gs": 1}, max_ops=5, max_threads=2), 0),
-    "metrics": (dict(policies=ALLPOL, directs=(0, 2), reducers=(0, 2), effects=0.2, verdict=0.3,
+    "metrics": (dict(policies=ALLPOL, directs=(0, 2), reducers=(0, 2), effects=0.3, verdict=0.3, rm=0.5,
                      ops={"d": 12, "gm": 3, "close": 1}, max_ops=5, mws=(0, 2), max_threads=3), 15),
 }
 
@@ -753,7 +782,7 @@ PROPERTY_FAMILIES = {
     "C06": [("drop_burst", 200, 3000), ("mp_policies", 80, 1000)],
     "C07": [("registration", 120, 2400), ("subs_order", 120, 1600), ("mp_dispatch", 40, 800)],
     "C08": [("readers", 200, 3000)],
-    "C09": [("subs_lifecycle", 160, 3000), ("shutdown_unsub", 160, 2000), ("resub", 40, 600)],
+    "C09": [("subs_lifecycle", 160, 3000), ("shutdown_unsub", 160, 2000), ("resub", 40, 600), ("unsub_again", 40, 600)],
     "C10": [("channeled", 220, 3000), ("resub", 40, 600)],
     "C11": [("effects", 220, 3000)],
     "C13": [("api_mix", 220, 3000), ("iterators", 40, 600)],
@@ -812,7 +841,9 @@ def cbun_extra(sc, rng):
 PROPERTY_FREE = {
     "C01": [("mp_dispatch", "", 200, 4000),
             # registration calls racing a slow reducer chain
-            ("registration", "delay reduce 0 0 300", 100, 2000)],
+            ("registration", "delay reduce 0 0 300", 100, 2000),
+            # readers holding the state mutex (slow user Clone) while the reducer writes back
+            ("readers", "free readers 3\nfree slowclone 20000", 100, 2000)],
     "C02": [("mp_policies", "", 200, 4000), ("mw_nested", nested_extra, 150, 3000)],
     "C03": [("mp_dispatch", "", 200, 4000)],
     "C04": [("stop_race", "", 200, 4000),
@@ -826,7 +857,7 @@ PROPERTY_FREE = {
     "C09": [("subs_lifecycle", "", 200, 4000),
             # a slow release at shutdown and a slow channeled consumer: unsubscribe() racing stop()
             ("shutdown_unsub", "delay unsub 1 0 1500\ndelay notify 2 0 400\ndelay notify 3 0 400\ndelay notify 4 0 400", 150, 3000),
-            ("cb_unsub_direct", cbun_extra, 100, 2000)],
+            ("cb_unsub_direct", cbun_extra, 100, 2000), ("unsub_again", "", 100, 2000)],
     "C10": [("channeled", "", 200, 4000),
             # slow channeled consumers: full subscription queues at unsubscribe / stop
             ("channeled", "delay notify 2 0 300\ndelay notify 3 0 300", 150, 3000),
